@@ -838,6 +838,15 @@ impl RibbitTactClient {
     }
 }
 
+/// Verification access shims (compiled only by the Kani model checker).
+#[cfg(kani)]
+pub mod verif_access {
+    /// Calls the private `validate_endpoint`.
+    pub fn validate_endpoint(endpoint: &str) -> crate::error::Result<()> {
+        super::validate_endpoint(endpoint)
+    }
+}
+
 /// Validate that endpoint is safe and well-formed
 fn validate_endpoint(endpoint: &str) -> Result<()> {
     if endpoint.is_empty() {
